@@ -3,8 +3,9 @@
 Decided: signature verification dominates acceptance of a certificate and the
 verified bytes are the parsed bytes; only verified certificates are kept; the
 predicate returns True only for a kept certificate naming this server and not
-yet expired at a time read on every call; no keys => always permitted
-(DESIGN.md section 5, C33)."""
+yet expired at a time read on every call; no keys => always permitted; the
+answer of upload_permitted() is computed when it is asked, by the predicate the
+factory returned (DESIGN.md section 5, C33)."""
 from sa.h import *
 
 EXPLANATION = (
@@ -16,11 +17,21 @@ EXPLANATION = (
     "only when it is the non-None result of validate_grid_manager_certificate(key, alleged_cert) for a key of `keys` "
     "and a certificate of `certs`, and the kept list is filled nowhere else; (3) the returned predicate returns a "
     "truthy value only inside cert['public_key'] == public_key and now < fromisoformat(cert['expires']) (strict) for "
-    "an element of the kept list, `now` being obtained by calling now_fn() inside the predicate (per call), now_fn "
+    "the element of the kept list of the current iteration (a same-named variable of the factory captured by the "
+    "closure is not that element), `now` being obtained by calling now_fn() inside the predicate (per call), now_fn "
     "defaulting to the timezone-aware current_datetime_with_zone; every other exit returns False; (4) the "
-    "always-True predicate is returned exactly under `not keys`, every other return is the checking predicate. "
-    "Undecided: Ed25519 itself, JSON decoding, datetime comparison semantics, clock correctness.")
-TECHNIQUE = "static analysis: CFG must-precede gates on normalised edge facts, same-value agreement of verified and parsed bytes"
+    "always-True predicate is returned exactly under `not keys`, every other return is the checking predicate; "
+    "(5) time of the question: every return of both upload_permitted() implementations is the result of calling the "
+    "stored verifier during that invocation (constant True only under `verifier is None`), never an attribute or "
+    "other state that outlives the call; the verifier attribute is stored once, in __init__, as the bare constructor "
+    "argument; no functools memoiser decorates upload_permitted, the predicate or the clock (other decorators: "
+    "undecided, analysis error); (6) the constructor argument of both server classes is the object returned by "
+    "create_grid_manager_verifier (or a zero-argument lambda calling it), not an answer taken from it, and the "
+    "factory's now_fn argument at its call sites is absent/None/the real clock. "
+    "Undecided: Ed25519 itself, JSON decoding, datetime comparison semantics, clock correctness, callers of "
+    "upload_permitted() keeping its answer (C32 decides the two upload paths).")
+TECHNIQUE = ("static analysis: CFG must-precede gates on normalised edge facts, same-value agreement of verified and parsed "
+             "bytes, reaching-definition provenance of returned values and constructor arguments")
 
 GM = "grid_manager"
 VALIDATE = GM + ":validate_grid_manager_certificate"
@@ -193,7 +204,21 @@ def run(ctx: Context):
         if len(loops) != 1:
             raise AnchorVanished("%s: expected one loop over %s" % (short(chk), lst))
         lv = loops[0].ast.target.id
-        fnorm = FlowNorm(chk, rename={lv: "cert"})
+        # the loop's certificate gets a name no other variable of the factory or the predicate has: a free variable of
+        # the predicate that merely happens to be spelled like the certificate (e.g. the factory's own loop variable
+        # `cert`, captured late, after a half-finished rename of the predicate's loop variable) must not be taken for it
+        taken = set(all_defs(fn)) | set(all_defs(chk)) | set(fn.params) | {
+            x.id for x in ast.walk(fn.node) if isinstance(x, ast.Name)}
+        K = "kept_cert"
+        while K in taken:
+            K += "_"
+        fnorm = FlowNorm(chk, rename={lv: K})
+        chk_locals = set(all_defs(chk)) | set(chk.params)
+        late = sorted({x.id for x in ast.walk(chk.node) if isinstance(x, ast.Name) and isinstance(x.ctx, ast.Load)
+                       and x.id not in chk_locals and x.id != lst and x.id not in fn.params
+                       and x.id in all_defs(fn) and x.id not in fn.nested})
+        hint = (" - the predicate reads the factory's variable(s) %s: bound by the factory (to whatever it held last), not "
+                "in this call for the certificate of this iteration" % ", ".join(late)) if late else ""
         if chk.params:
             raise AnchorVanished("the verifier predicate takes parameters now: %s" % chk.params)
         for nm in ("public_key", lst):
@@ -211,9 +236,9 @@ def run(ctx: Context):
             f = fnorm.edge_fact(x, lab)
             if not f or f[0] != "==":
                 return False
-            return {_strip_codec(f[1]), _strip_codec(f[2])} == {"cert['public_key']", "public_key"}
+            return {_strip_codec(f[1]), _strip_codec(f[2])} == {"%s['public_key']" % K, "public_key"}
 
-        exp_re = re.compile(r"^(\w+\.)*fromisoformat\(cert\['expires'\]\)$")
+        exp_re = re.compile(r"^(\w+\.)*fromisoformat\(%s\['expires'\]\)$" % re.escape(K))
         clock = {}
 
         def unexpired(x, lab):
@@ -238,8 +263,8 @@ def run(ctx: Context):
                 bad = find_path_avoiding(cfg, lambda x, _n=n: x is _n, gate_edge=gate, kill=rebind)
                 r.count(len(cfg.nodes))
                 for (t, w) in bad:
-                    r.violation(chk, chk.loc(n.ast), "permission is granted without checking that %s (path: %s)" % (
-                        what, w.brief()), w)
+                    r.violation(chk, chk.loc(n.ast), "permission is granted without checking that %s%s (path: %s)" % (
+                        what, hint, w.brief()), w)
         # the clock: a free variable of the predicate bound in the factory to now_fn / current_datetime_with_zone
         r.site(chk, None, "clock")
         for cname, node in sorted(clock.items()):
@@ -312,6 +337,188 @@ def run(ctx: Context):
         for (t, w) in find_path_avoiding(cfg, lambda x: x.kind == "exit", gate_node=is_return):
             r.violation(fn, fn.loc(), "create_grid_manager_verifier can fall off its end (returns None, not a predicate)", w)
 
+    # -- 5. the answer is computed when the question is asked ---------------
+    with ctx.rule("C33.5", "R1/R6", "every answer of upload_permitted() is computed during that call: each return is the "
+                  "result of calling the stored verifier predicate in this invocation (constant True only under `verifier "
+                  "is None`); the stored object is the constructor argument itself, never its answer; nothing on the chain "
+                  "upload_permitted -> predicate -> clock is memoised", expected=4) as r:
+        wiring = _wiring(idx, cg)
+        for f in _permit_impls(idx):
+            r.site(f, None, "implementation")
+            ci = f.cls
+            init = ci.lookup("__init__")
+            if init is None:
+                raise AnchorVanished("%s has no __init__" % ci.name)
+            vparams = wiring["params"].get(ci.name) or set()
+            if not vparams:
+                raise AnchorVanished("no constructor call of %s receives a value derived from create_grid_manager_verifier" % ci.name)
+            _no_memo(r, f)
+            # what __init__ does with the verifier: store it, do not ask it
+            vattrs = set()
+            for P in sorted(vparams):
+                if P not in init.params:
+                    raise AnchorVanished("%s.__init__ has no parameter %s" % (ci.name, P))
+                for x in init.cfg().find(stores(P)):
+                    r.violation(init, init.loc(x.ast), "%s re-binds its verifier parameter %s" % (short(init), P))
+                # (asking the verifier inside __init__ is harmless by itself; handing that answer out later is what the
+                # return check below reports)
+                for x in func_own_nodes(init):
+                    if isinstance(x, (ast.Assign, ast.AnnAssign)) and x.value is not None and P in names_in(x.value):
+                        tgts = x.targets if isinstance(x, ast.Assign) else [x.target]
+                        if isinstance(x.value, ast.Name) and len(tgts) == 1 and (attr_path(tgts[0]) or "").startswith("self."):
+                            vattrs.add(attr_path(tgts[0]))
+                        elif not any(isinstance(c, ast.Call) and isinstance(c.func, ast.Name) and c.func.id == P
+                                     for c in own_nodes(x.value, into_lambda=True)):
+                            r.violation(init, init.loc(x), "%s keeps the verifier wrapped (%s); the rule cannot establish that the "
+                                        "wrapper re-evaluates it on every call" % (short(init), src(init, x)))
+            if not vattrs:
+                if r.violations:
+                    continue
+                raise AnchorVanished("%s.__init__ no longer stores its verifier parameter in an attribute" % ci.name)
+            for va in sorted(vattrs):
+                for (g, nd) in cg.attr_stores(va.split(".", 1)[1]):
+                    pa = _parent_assign(g, nd)
+                    val = getattr(pa, "value", None)
+                    ok = g.name == "__init__" and g.cls is not None and any(g.cls is h.cls for h in _permit_impls(idx)) \
+                        and isinstance(val, ast.Name) and val.id in g.params
+                    if not ok:
+                        r.violation(g, g.loc(nd), "%s re-binds the verifier attribute %s" % (short(g), attr_path(nd)))
+            cfg = f.cfg()
+            fnorm = FlowNorm(f)
+            rets = cfg.find(is_return)
+            if not rets:
+                raise AnchorVanished("%s has no return" % short(f))
+
+            def unconf_fact(fct):
+                return bool(fct) and ((fct[0] == "is" and "None" in (fct[1], fct[2]) and ({fct[1], fct[2]} - {"None"}) <= vattrs)
+                                      or (fct[0] == "false" and fct[1] in vattrs))
+
+            def conf_fact(fct):
+                return bool(fct) and ((fct[0] == "is not" and "None" in (fct[1], fct[2]) and ({fct[1], fct[2]} - {"None"}) <= vattrs)
+                                      or (fct[0] == "truth" and fct[1] in vattrs))
+
+            def unconfigured(x, lab):
+                return unconf_fact(fnorm.edge_fact(x, lab))
+
+            def fresh(n, e, known):
+                """None when the value of `e` at node n is decided during this call, else the offending sub-expression.
+                `known`: it is established that no verifier is configured."""
+                e = fnorm.resolve(n, e)
+                if isinstance(e, ast.Constant):
+                    return None if (not e.value or (e.value is True and known)) else e
+                if isinstance(e, ast.Call) and call_name(e) == "bool" and len(e.args) == 1 and not e.keywords:
+                    return fresh(n, e.args[0], known)
+                if isinstance(e, ast.Call) and not e.args and not e.keywords \
+                        and fnorm.norm(n, fnorm.resolve(n, e.func)) in vattrs:
+                    return None
+                if isinstance(e, (ast.Compare, ast.UnaryOp)):
+                    nm = fnorm.at(n)
+                    if unconf_fact(nm.cmp(e, True)):
+                        return None          # true only when no verifier is configured
+                    if conf_fact(nm.cmp(e, True)):
+                        return e if not known else None
+                    return e
+                if isinstance(e, ast.BoolOp) and isinstance(e.op, ast.Or):
+                    nm = fnorm.at(n)
+                    k = known
+                    for o in e.values:
+                        if isinstance(o, (ast.Compare, ast.UnaryOp)) and unconf_fact(nm.cmp(o, True)):
+                            k = False            # the operands after it are evaluated only when one is configured
+                            continue
+                        bad = fresh(n, o, k)
+                        if bad is not None:
+                            return bad
+                    return None
+                if isinstance(e, ast.BoolOp):
+                    nm = fnorm.at(n)
+                    for o in e.values:
+                        if isinstance(o, (ast.Compare, ast.UnaryOp, ast.Name, ast.Attribute)) and conf_fact(nm.cmp(o, True)):
+                            continue
+                        bad = fresh(n, o, known)
+                        if bad is not None:
+                            return bad
+                    return None
+                if isinstance(e, ast.IfExp):
+                    nm = fnorm.at(n)
+                    t = nm.cmp(e.test, True)
+                    kb = True if unconf_fact(t) else known
+                    ko = True if conf_fact(t) else known
+                    return fresh(n, e.body, kb) or fresh(n, e.orelse, ko)
+                return e
+            for n in rets:
+                v = n.ast.value
+                if v is None:
+                    continue
+                gated = not find_path_avoiding(cfg, lambda x, _n=n: x is _n, gate_edge=unconfigured)
+                r.count(len(cfg.nodes))
+                bad = fresh(n, v, gated)
+                if bad is None:
+                    continue
+                what = src(f, bad)
+                if isinstance(bad, ast.Constant):
+                    why = "a constant answer although a verifier may be configured"
+                elif (attr_path(bad) or "").startswith("self."):
+                    why = "an attribute that outlives the call: an earlier verdict (or one made at construction time) is " \
+                          "given again after the certificate has expired"
+                else:
+                    why = "not the result of calling %s() during this call" % "/".join(sorted(vattrs))
+                r.violation(f, f.loc(n.ast), "%s answers with %s - %s" % (short(f), what, why))
+        fn = idx.func(CREATE)
+        chk = _checker(fn)
+        r.site(chk, None, "predicate not memoised")
+        _no_memo(r, chk)
+        cur = idx.func(GM + ":current_datetime_with_zone")
+        r.site(cur, None, "clock not memoised")
+        _no_memo(r, cur)
+
+    # -- 6. what is handed to the server objects ----------------------------
+    with ctx.rule("C33.6", "R6", "the object given to the storage-server classes as their verifier is the predicate returned "
+                  "by create_grid_manager_verifier itself (not an answer taken from it, not a wrapper), and the factory is "
+                  "called with the real clock", expected=3) as r:
+        wiring = _wiring(idx, cg)
+        cur_q = "allmydata." + GM + ":current_datetime_with_zone"
+        for (g, call) in wiring["factory_calls"]:
+            r.site(g, call, "verifier construction")
+            if any(isinstance(a, ast.Starred) for a in call.args) or any(k.arg is None for k in call.keywords):
+                r.violation(g, g.loc(call), "create_grid_manager_verifier is called with */** arguments the rule cannot follow")
+                continue
+            fps = idx.func(CREATE).params
+            a = kwarg(call, "now_fn")
+            if a is None and "now_fn" in fps:
+                a = arg(call, fps.index("now_fn"))
+            if a is None or _is_none_const(a):
+                continue
+            tgt = idx.resolve_expr(g.module, a) if isinstance(a, (ast.Name, ast.Attribute)) else None
+            if isinstance(tgt, FuncInfo) and tgt.qual == cur_q:
+                continue
+            if isinstance(a, ast.Lambda) and not a.args.args and not a.args.vararg and not a.args.kwarg \
+                    and N(g).norm(a.body) == "datetime.now(timezone.utc)":
+                continue
+            r.violation(g, g.loc(call), "%s builds the verifier with now_fn=%s: expiry is then judged against that, not "
+                        "against the time at which upload_permitted() is asked" % (short(g), src(g, a)))
+        for (g, call, cname, P, a, node) in wiring["ctor_actuals"]:
+            r.site(g, call, "constructs %s(%s=...)" % (cname, P))
+            gnorm = wiring["norms"][g.qual]
+            v = gnorm.resolve(node, a)
+            if isinstance(v, ast.Call) and any(v is c for (_g, c) in wiring["factory_calls"]):
+                continue
+            if isinstance(v, ast.Call) and not v.args and not v.keywords:
+                inner = gnorm.resolve(node, v.func)
+                if isinstance(inner, ast.Call) and any(inner is c for (_g, c) in wiring["factory_calls"]):
+                    r.violation(g, g.loc(call), "%s is constructed with %s=%s: the verifier's answer at construction time, not "
+                                "the predicate" % (cname, P, src(g, a)))
+                    continue
+            asked = [c for c in calls_feeding(g, a) if not c.args and not c.keywords
+                     and isinstance(gnorm.resolve(node, c.func), ast.Call)
+                     and any(gnorm.resolve(node, c.func) is fc for (_g, fc) in wiring["factory_calls"])]
+            if isinstance(v, ast.Lambda) and not v.args.args and isinstance(v.body, ast.Call) and not v.body.args \
+                    and not v.body.keywords and isinstance(v.body.func, ast.Name) \
+                    and len(asked) == 1 and asked[0] is v.body:
+                continue                     # `lambda: gm_verifier()` asks again on every call
+            r.violation(g, g.loc(call), "%s is constructed with %s=%s, which is not the predicate returned by "
+                        "create_grid_manager_verifier%s" % (cname, P, src(g, a), (
+                            " (the verifier is asked once, here: %s)" % src(g, asked[0])) if asked else ""))
+
 
 def _checker(fn):
     """The nested predicate returned by the factory."""
@@ -334,3 +541,83 @@ def _kept_list(fn, chk):
                 and x.ast.iter.id not in all_defs(chk):
             return x.ast.iter.id
     raise AnchorVanished("%s no longer iterates a list built by the factory" % short(chk))
+
+
+def _permit_impls(idx):
+    """The classes answering `upload_permitted()` (the interface declaration has no self)."""
+    impls = [f for f in idx.by_name.get("upload_permitted", []) if f.cls is not None and f.params[:1] == ["self"]]
+    if len(impls) < 2:
+        raise AnchorVanished("expected two upload_permitted implementations, found %d" % len(impls))
+    return sorted(impls, key=lambda f: f.qual)
+
+
+def _parent_assign(g, target):
+    for x in func_own_nodes(g, into_lambda=True):
+        if isinstance(x, ast.Assign) and any(t is target or any(y is target for y in ast.walk(t)) for t in x.targets):
+            return x
+        if isinstance(x, ast.AnnAssign) and x.target is target:
+            return x
+    return None
+
+
+_MEMOISERS = {"functools.lru_cache", "functools.cache", "functools.cached_property"}
+
+
+def _no_memo(r, f):
+    """No decorator keeps an earlier result of `f`."""
+    for d in f.decorators():
+        e = d.func if isinstance(d, ast.Call) else d
+        p = attr_path(e) or "?"
+        head, _, rest = p.partition(".")
+        full = f.module.imports.get(head, head) + ("." + rest if rest else "")
+        if full in _MEMOISERS:
+            r.violation(f, f.loc(d), "%s is wrapped by @%s: the first answer is kept and given again after the certificate "
+                        "has expired" % (short(f), full))
+        else:
+            raise AnalysisError("%s is decorated by @%s, which the rule cannot follow (does every call still run the body?)" % (
+                short(f), src(f, d)))
+
+
+def _wiring(idx, cg):
+    """Where verifiers are built and which constructor parameter of the server classes receives them."""
+    hit = getattr(idx, "_c33_wiring", None)
+    if hit is not None:
+        return hit
+    target = "allmydata." + CREATE
+    fcalls = []
+    for cs in cg.calls_named("create_grid_manager_verifier"):
+        if cs.fn.module.name == "allmydata." + GM:
+            continue
+        if any(t.qual == target for t in cg.resolve(cs.fn, cs.call)):
+            fcalls.append((cs.fn, cs.call))
+    if not fcalls:
+        raise AnchorVanished("create_grid_manager_verifier is not called anywhere outside grid_manager")
+    fids = {id(c) for (_g, c) in fcalls}
+    params, actuals, norms = {}, [], {}
+    for f in _permit_impls(idx):
+        ci = f.cls
+        init = ci.lookup("__init__")
+        if init is None:
+            continue
+        ips = first_positional_params(init)
+        for cs in cg.calls_named(ci.name):
+            if idx.resolve_expr_to_class(cs.fn.module, cs.call.func) is not ci:
+                continue
+            g = cs.fn
+            if g.qual not in norms:
+                norms[g.qual] = FlowNorm(g)
+            node = None
+            for x in g.cfg().nodes:
+                if x.ast is not None and any(c is cs.call for c in node_calls(x)):
+                    node = x
+            if node is None:
+                continue
+            pairs = [(ips[i], a) for i, a in enumerate(cs.call.args) if i < len(ips) and not isinstance(a, ast.Starred)]
+            pairs += [(k.arg, k.value) for k in cs.call.keywords if k.arg is not None]
+            for (P, a) in pairs:
+                if any(id(c) in fids for c in calls_feeding(g, a)):
+                    params.setdefault(ci.name, set()).add(P)
+                    actuals.append((g, cs.call, ci.name, P, a, node))
+    hit = {"factory_calls": fcalls, "params": params, "ctor_actuals": actuals, "norms": norms}
+    idx._c33_wiring = hit
+    return hit
